@@ -66,7 +66,8 @@ def body(chk, db, cfgname):
         site = "%s(%s)" % (qn, kind)
         if len(rets) != 1:
             raise AnalysisBroken("%s: expected one return" % site)
-        rk = gctx.key(g.nodes[rets[0]]["sub"])
+        from pv.symenv import env_at, value_key
+        rk = value_key(g, gctx, env_at(g, gctx), g.nodes[rets[0]]["sub"], rets[0])
         if kind == "z":
             T = F.name_atom(("op", "()", terms, ("param", g.params[0]["d"], g.params[0]["n"])), "Terms_z")
             # Terms(z) + (|z| < 1e-15 ? Z0*beta : 0)
@@ -87,6 +88,8 @@ def body(chk, db, cfgname):
                         why = "static-limit contribution is (%s ? %s : %s), expected (|z| < eps ? ZeroPoleWeight*beta : 0)" % (g.s(g.nodes[rets[0]]["sub"])[:60], F.conv(c[2]), F.conv(c[3]))
             if ok_:
                 r1.ok(site, g.loc(), "Terms(z) + [|z|<eps]*ZeroPoleWeight*beta", cfgname)
+            elif key_contains(rk, lambda y: y[0] == "var"):
+                raise AnalysisBroken("%s: the returned value depends on a local that is assigned in a form that is not analysed" % site)
             else:
                 r1.bad(site, g.loc(), why, cfgname)
         else:
